@@ -49,6 +49,8 @@ std::string run_judge(const std::string& vars, const std::vector<std::string>& o
     if (!done)
       o << "{\"verdict\":\"ok\",\"nfeas\":" << nfeas << ",\"ninf\":" << ninf << ",\"has_aux\":" << (has_aux ? "true" : "false")
         << ",\"nontrivial\":" << ((has_aux && nfeas && ninf) ? "true" : "false") << "}";
+  } catch (const ax::LPFMDisagree& u) {
+    o.str(""); o << "{\"verdict\":\"oracle-internal\",\"why\":\"" << vx::jesc(u.what()) << "\"}";
   } catch (const ax::Undecided& u) {
     o.str(""); o << "{\"verdict\":\"undecided\",\"why\":\"" << vx::jesc(u.what()) << "\"}";
   } catch (const std::exception& e) {
